@@ -68,10 +68,17 @@ def run(case):
     dia = dialect_for(wn, rn)
     if dia is None:
         return {"skip": "mixed quote styles"}
+    whole = case.get("whole")
+    if whole:
+        dia = "bigquery"
+
+    def wh(text, which):
+        # `a`.`b`.`c` -> `a.b.c`
+        return "`" + text.replace("`", "") + "`" if whole in (which, "both") and text.count(".") >= 1 else text
     out = {"exc": "none", "dialect": dia, "hash_consistent": True}
     try:
         if (wp, rp) == ("target", "next_stmt_from"):
-            W, R = spell(wn, "tab"), spell(rn, "tab")
+            W, R = wh(spell(wn, "tab"), "w"), wh(spell(rn, "tab"), "r")
             s1 = "insert into %s select c1 from src0" % W
             s2 = "insert into fin select c1 from %s" % R
             out["sql"] = s1 + ";\n" + s2
@@ -83,7 +90,7 @@ def run(case):
             out["connected"] = len(lr.intermediate_tables) == 1
             out["hash_consistent"] = _hash_ok(a.target_tables[0], W, len(wn)) and _hash_ok(b.source_tables[0], R, len(rn))
         elif (wp, rp) == ("from", "from"):
-            W, R = spell(wn, "tab"), spell(rn, "tab")
+            W, R = wh(spell(wn, "tab"), "w"), wh(spell(rn, "tab"), "r")
             out["sql"] = "insert into fin select c1 from %s union all select c1 from %s" % (W, R)
             a = LineageRunner("select c1 from %s" % W, dialect=dia)
             b = LineageRunner("select c1 from %s" % R, dialect=dia)
@@ -104,6 +111,14 @@ def run(case):
             out["rprinted"] = printed(str(owner), len(rn)) if out["connected"] else printed(str(src), len(rn))[:-1] + printed(str(owner), 1)
             out["hash_consistent"] = (_hash_ok(src, W, len(wn)) and
                                       (owner != src or (hash(owner) == hash(src) and owner in {src} and len({owner, src}) == 1)))
+            # the same reference while the table is read under an alias: the qualifier then names nothing in scope and falls back to
+            # a table of that name - an entity that, where it compares equal to the table read, must hash equally too
+            lr2 = LineageRunner("insert into fin select %s.c1 from %s zz9" % (R, W), dialect=dia)
+            for p2 in lr2.get_column_lineage():
+                o2 = p2[0].parent
+                for t2 in lr2.source_tables:
+                    if o2 == t2 and not (hash(o2) == hash(t2) and o2 in {t2} and len({o2, t2}) == 1):
+                        out["hash_consistent"] = False
         elif rp in ("next_stmt_colref", "next_stmt_colref_after_rename"):
             W, R = spell(wn, "col"), spell(rn, "col")
             if case.get("dotted"):
